@@ -57,18 +57,19 @@ pub fn specs() -> Vec<PropSpec> {
                 Stage { engine: || Box::new(bsv_coll::coll::CollEngine::new($id)), quick_cases: $q, thorough_cases: $t }
             };
         }
-        prop!("C06", coll!("C06", 200_000, 5_000_000));
-        prop!("C08", coll!("C08", 200_000, 5_000_000));
-        prop!("C15", coll!("C15", 100_000, 3_000_000));
-        prop!("C16", coll!("C16", 200_000, 5_000_000));
+        prop!("C06", coll!("C06", 2_000_000, 50_000_000));
+        prop!("C08", coll!("C08", 2_000_000, 50_000_000));
+        prop!("C15", coll!("C15", 600_000, 15_000_000));
+        prop!("C16", coll!("C16", 1_500_000, 40_000_000));
         if let Some(p) = v.iter_mut().find(|p| p.id == "C07") {
             p.stages.push(coll!("C07", 100_000, 2_000_000));
+            p.stages.push(Stage { engine: || Box::new(bsv_coll::strings::StrEngine { split_mix: false }), quick_cases: 300_000, thorough_cases: 8_000_000 });
         }
-        prop!("C09", Stage { engine: || Box::new(bsv_coll::strings::StrEngine { split_mix: false }), quick_cases: 400_000, thorough_cases: 10_000_000 });
+        prop!("C09", Stage { engine: || Box::new(bsv_coll::strings::StrEngine { split_mix: false }), quick_cases: 2_000_000, thorough_cases: 50_000_000 });
         if let Some(p) = v.iter_mut().find(|p| p.id == "C16") {
-            p.stages.push(Stage { engine: || Box::new(bsv_coll::strings::StrEngine { split_mix: true }), quick_cases: 100_000, thorough_cases: 2_000_000 });
+            p.stages.push(Stage { engine: || Box::new(bsv_coll::strings::StrEngine { split_mix: true }), quick_cases: 500_000, thorough_cases: 12_000_000 });
         }
-        prop!("C17", Stage { engine: || Box::new(bsv_lock::LockEngine), quick_cases: 200_000, thorough_cases: 5_000_000 });
+        prop!("C17", Stage { engine: || Box::new(bsv_lock::LockEngine), quick_cases: 2_000_000, thorough_cases: 50_000_000 });
         prop!("C19", Stage { engine: || Box::new(bsv_pool::PoolEngine), quick_cases: 6_000, thorough_cases: 100_000 });
         // C12: the real-arena half rides on engine A
         if let Some(p) = v.iter_mut().find(|p| p.id == "C12") {
